@@ -147,6 +147,12 @@ type attemptPlan struct {
 	PubErrK string
 	MutKey  string // handler sets this metadata key before returning ("" = no mutation)
 	MutVal  string
+
+	// '+panics' classes ("" = no panic): the poison publisher panics instead of returning (PubFail is false then),
+	// the handler panics instead of returning (Err is nil then), the filter panics when asked about this failure
+	PubPanicK, PubPanicTxt string
+	HPanicK, HPanicTxt     string
+	FPanicK, FPanicTxt     string
 }
 
 type msgPlan struct {
@@ -157,6 +163,7 @@ type msgPlan struct {
 	Handler  int // index of the router handler that receives it (router mode); -1 = dispatched directly (no Router context)
 	Attempts []attemptPlan
 	Ctx      []ctxInj // foreign context values application code stores on the message (extended classes)
+	Outage   bool     // '+panics': one accepted failure on every delivery, the poison publisher panics / fails first and accepts on the last one
 	At       int      // 'router+lifecycle': delivered in the message phase after this wave was started (waves+1 = after the whole history)
 }
 
